@@ -11,12 +11,19 @@ import (
 func GenSpec(r *vh.Rng) Spec {
 	spec := Spec{PGPhase: map[int64]int64{}, JPrio: map[int64]int64{}, JSys: map[int64]bool{}, TClass: map[int64]int64{}, QRecl: map[int64]int64{}}
 	nn := r.Range(1, 3)
+	spec.Actions = vh.Pick(r, [][]int64{{1}, {2}, {1}, {2}, {1, 2}, {2, 1}})
+	// three quarters of the clusters are staged: job 1 is a running low-priority victim above its gang
+	// minimum, job 2 a starving high-priority preemptor (same queue for preempt, another for reclaim)
+	staged := r.Chance(3, 4)
 	type used struct{ cpu, mem, pods, gpu int64 }
 	room := map[int64]*used{}
 	for i := 1; i <= nn; i++ {
 		room[int64(i)] = &used{}
 	}
 	nq := r.Range(1, 3)
+	if staged && spec.Actions[0] == 2 && nq == 1 {
+		nq = 2
+	}
 	for q := 1; q <= nq; q++ {
 		qs := sched.QueueSpec{ID: int64(q), Open: !r.Chance(1, 12), Weight: int64(r.Range(1, 4))}
 		if r.Chance(1, 5) {
@@ -29,10 +36,24 @@ func GenSpec(r *vh.Rng) Spec {
 	tid := int64(0)
 	for j := 1; j <= nj; j++ {
 		js := sched.JobSpec{ID: int64(j), Queue: int64(r.Range(1, nq))}
+		if staged && j == 1 {
+			js.Queue = 1
+		}
+		if staged && j == 2 {
+			js.Queue = 1
+			if spec.Actions[0] == 2 {
+				js.Queue = 2
+			}
+		}
 		spec.JSys[js.ID] = r.Chance(1, 12)
 		nt := r.Range(1, 5)
 		// a job is mostly running (victim side) or mostly pending (preemptor side) or mixed
 		mode := r.Intn(3)
+		if j == 1 {
+			mode = 0
+		} else if j == 2 {
+			mode = 1
+		}
 		switch mode {
 		case 0:
 			spec.JPrio[js.ID] = int64(r.Range(0, 2))
@@ -40,6 +61,12 @@ func GenSpec(r *vh.Rng) Spec {
 			spec.JPrio[js.ID] = int64(r.Range(1, 3))
 		default:
 			spec.JPrio[js.ID] = int64(r.Range(0, 3))
+		}
+		if staged && j == 1 {
+			spec.JPrio[js.ID] = int64(r.Range(0, 1))
+		}
+		if staged && j == 2 {
+			spec.JPrio[js.ID] = int64(r.Range(2, 3))
 		}
 		running := 0
 		for k := 0; k < nt; k++ {
@@ -92,14 +119,23 @@ func GenSpec(r *vh.Rng) Spec {
 		default:
 			js.Min = int64(r.Range(1, nt))
 		}
+		if staged && j == 1 && running > 0 && r.Chance(4, 5) {
+			js.Min = int64(r.Range(0, running-1))
+		}
+		if staged && j == 2 && r.Chance(4, 5) {
+			js.Min = int64(r.Range(running+1, nt+1))
+		}
 		spec.Jobs = append(spec.Jobs, js)
-		spec.PGPhase[js.ID] = vh.Pick(r, []int64{2, 2, 2, 3, 3, 1})
+		spec.PGPhase[js.ID] = vh.Pick(r, []int64{2, 2, 2, 2, 3, 3, 3, 3, 3, 1})
+		if staged && j <= 2 && r.Chance(9, 10) {
+			spec.PGPhase[js.ID] = 3
+		}
 	}
 	// nodes: what their tasks use plus a small slack, so that pending tasks rarely fit as they are
 	for i := 1; i <= nn; i++ {
 		f := room[int64(i)]
 		ns := sched.NodeSpec{ID: int64(i), Has: true,
-			CPU:  f.cpu + vh.Pick(r, []int64{0, 0, 250, 500, 1000, 3000}),
+			CPU:  f.cpu + vh.Pick(r, []int64{0, 0, 0, 250, 500, 1000}),
 			Mem:  f.mem + vh.Pick(r, []int64{0, 1 << 19, 1 << 20, 8 << 20}),
 			Pods: f.pods + vh.Pick(r, []int64{0, 1, 2, 5}),
 			GPU:  f.gpu}
@@ -120,7 +156,7 @@ func GenSpec(r *vh.Rng) Spec {
 	// tier layout
 	kinds := []int64{}
 	for _, k := range []int64{KGang, KPrio, KConf, KProp} {
-		if r.Chance(4, 5) {
+		if r.Chance(6, 7) {
 			kinds = append(kinds, k)
 		}
 	}
@@ -142,7 +178,6 @@ func GenSpec(r *vh.Rng) Spec {
 			spec.Tiers[i] = []Plug{}
 		}
 	}
-	spec.Actions = vh.Pick(r, [][]int64{{1}, {2}, {1}, {2}, {1, 2}, {2, 1}})
 	return spec
 }
 
